@@ -151,3 +151,22 @@ Proof.
   repeat split; vm_compute; reflexivity.
 Qed.
 Print Assumptions C19_utf16_column_refuted.
+
+(* T12 terminal column vs "counting characters": the `file:line:col` column and the caret padding are
+       counted in BYTES; for a boundary offset they equal the 1-based CHARACTER column exactly when
+       no multi-byte scalar precedes the offset on its line; otherwise the column is too large *)
+Theorem C19_terminal_column : forall m d o, 0 <= o -> text_blen d < 2 ^ 64 - 1 -> boundary d o ->
+  exists ln cn t, line_info_m m d o = Val (ln, cn, t) /\
+    (Known_C19_multibyte_before d o = false -> cn = snd (o2p d o) + 1) /\
+    (Known_C19_multibyte_before d o = true -> snd (o2p d o) + 1 < cn).
+Proof. exact terminal_column. Qed.
+Print Assumptions C19_terminal_column.
+
+Theorem C19_terminal_column_refuted :
+  exists d o, boundary d o /\ Known_C19_multibyte_before d o = true /\
+    o2p d o = (0, 1) /\ line_info_m Trap d o = Val (1, 3, [233; 120]).
+Proof.
+  exists [233; 120], 2. split; [exists [233], [120]; split; reflexivity|].
+  repeat split; vm_compute; reflexivity.
+Qed.
+Print Assumptions C19_terminal_column_refuted.
